@@ -3,22 +3,24 @@ CONSTANTS
   SimOrder <- Order2
   Foreign = "f"
   MaxTarget = 3
-  SaveFreqs = {1, 2, 3}
-  Compressed = TRUE
+  SaveFreqs = {1, 2}
+  Compressed = FALSE
   AtomicSave = TRUE
   MaxRuns = 3
-  MaxKills = 100
-  MaxInterrupts = 100
+  MaxKills = 2
+  MaxInterrupts = 1
   RepairPartial = TRUE
-  TailSave = TRUE
-  Planned = TRUE
+  TailSave = FALSE
+  Planned = FALSE
 INIT Init
 NEXT Next
+VIEW view
 INVARIANT TypeOK
+INVARIANT NeverStuck
 INVARIANT Completes
 INVARIANT ExactCounts
 INVARIANT NoDup
 INVARIANT NoForeign
 INVARIANT LoadAdoptsLastGood
 INVARIANT DiskConsistent
-CONSTRAINT Emit
+PROPERTY PrefixKept
